@@ -696,8 +696,11 @@ class OpGen:
             y = r.random()
             if y < 0.4:
                 return w
-            if y < 0.7:
+            if y < 0.65:
                 return S.partial_of(w, r, 0.4)
+            if y < 0.75 and type(w) is dict:
+                w["__extra__"] = r.choice((1, None, [1], {"k": 1}))     # an undeclared key
+                return w
             return perturb(w, r)
         if x < 0.72:
             return copy.deepcopy(r.choice(UNRELATED))
@@ -711,7 +714,8 @@ class OpGen:
                 d.update(base)
                 return r.choice((d, [d], {"k": d}))
             return OrderedDict(base)
-        return copy.deepcopy(r.choice(([1, ...], {"a": ...}, [..., 1], {"a": [1, 2], "b": {"c": None}}, [[1, 2], [3]], [{"a": 1}, {"a": 2}])))
+        return copy.deepcopy(r.choice(([1, ...], {"a": ...}, [..., 1], {"a": [1, 2], "b": {"c": None}}, [[1, 2], [3]], [{"a": 1}, {"a": 2}],
+                                       (1, 2), ("a",), {"a", "b"}, frozenset((1, 2)), bytearray(b"ab"), [(1, 2), {"k": (3,)}])))
 
     def vspec(self, e):
         r = self.r
